@@ -17,6 +17,21 @@ def gen(rng, tier):
                    "timecheck now=%d" % (1000 + d2), "all svc=ns|g|s1",
                    "timecheck now=%d" % (1000 + d2 + 2000), "all svc=ns|g|s1"]
             cases.append(Case("edge-%d-%d" % (d1, d2), ops, True, "boundary"))
+    # a persistent (or gRPC-connected) instance whose host probe fails is unhealthy, never expired - however long ago it
+    # was last modified and whether or not the probe succeeds again before the time check
+    for kind, eph, grpc, cid in (("persistent", 0, 0, "-"), ("grpc", 1, 1, "1_c1")):
+        for gap in (1000, 20000, 33000, 40000, 100000):
+            for again in (None, 1, 0):
+                t0 = 1000
+                ops = ["upd svc=ns|g|s1 ip=10.0.0.1 port=80 eph=%d grpc=%d fc=0 cid=%s healthy=1 en=1 w=1000 tag=- sync=0 now=%d" % (eph, grpc, cid, t0),
+                       "upd svc=ns|g|s1 ip=10.0.0.2 port=80 eph=1 grpc=0 fc=0 cid=- healthy=1 en=1 w=1000 tag=- sync=0 now=%d" % t0,
+                       "probe svc=ns|g|s1 ip=10.0.0.1 port=80 ok=0 now=%d" % (t0 + gap)]
+                if again is not None:
+                    ops.append("probe svc=ns|g|s1 ip=10.0.0.1 port=80 ok=%d now=%d" % (again, t0 + gap + 500))
+                ops += ["timecheck now=%d" % (t0 + gap + 1000), "all svc=ns|g|s1",
+                        "timecheck now=%d" % (t0 + gap + 34000), "all svc=ns|g|s1",
+                        "timecheck now=%d" % (t0 + gap + 36000), "all svc=ns|g|s1", "audit"]
+                cases.append(Case("probe-%s-%d-%s" % (kind, gap, again), ops, True, "directed"))
     for i in range(200 if big else 30):
         cases.append(Case("Mreg-%d" % i, g.gen_mixed(rng, rng.randrange(4, 30)), False, "random"))
     return cases
@@ -34,7 +49,10 @@ class C13(Prop):
         "from {2 s, 5 s, 15 s, 17.99 s, 18 s, 18.01 s, 33 s, 33.01 s, 40 s}, single and double time checks, on the real "
         "NamingActor with a frozen wall clock; exact boundary cases of both time-outs; oracle: an instance heard of within "
         "18 s is never unhealthy/removed, a silent HTTP instance is gone after two checks past 33 s, persistent and gRPC "
-        "instances are never touched by the heartbeat clock. Generated cases avoid the region of known finding F16c."))]
+        "instances are never touched by the heartbeat clock - also after the TCP probe of their host has reported a failure "
+        "(PerpetualHostSniffing, the health check of persistent instances: directed cases over the age of the instance "
+        "and a second probe result; probes inside the random timelines). Generated cases avoid the region of known "
+        "finding F16c."))]
     trusted_base = [
         "hand model RNacos/Model/Naming.lean (time-out sets as lists with a stable sort by time)",
         "frozen wall clock through the LD_PRELOAD shim; time checks are explicit PeekListenerTimeout messages - the 2 s "
